@@ -1,5 +1,5 @@
 #!/venv/bin/python
-"""tools/seed_eval.py <worktree> <seed-id> [--skip-tests]
+"""tools/seed_eval.py <worktree> <seed-id> [--skip-tests] [--seed-dir=_seed1 --apply-patch]
 
 Confirms an independently produced regression and records what the checks say about it:
   1. demo fails with the change, passes without it (in the scratch worktree);
@@ -59,8 +59,19 @@ def main():
     skip_tests = "--skip-tests" in sys.argv
     if "--tests-only" in sys.argv:
         return tests_only(wt, sid)
-    seed = os.path.join(wt, "_seed")
+    seed_name = "_seed"
+    for a in sys.argv:
+        if a.startswith("--seed-dir="):
+            seed_name = a.split("=", 1)[1]
+    seed = os.path.join(wt, seed_name)
     meta = json.load(open(os.path.join(seed, "meta.json")))
+    if "--apply-patch" in sys.argv:
+        # the worktree is clean; the change is the seed directory's patch.diff
+        run(["git", "-C", wt, "checkout", "--", "discretisedfield"])
+        rc, o = run(["git", "-C", wt, "apply", os.path.join(seed, "patch.diff")])
+        if rc != 0:
+            print("patch does not apply in worktree: " + o[:300])
+            return 2
     pid = meta["property"]
     out = {"property": pid, "summary": meta.get("summary"), "needs": meta.get("needs"), "files": meta.get("files"),
            "author": "independent sub-agent (saw only the property text and a scratch worktree)", "ran": {}}
@@ -71,11 +82,11 @@ def main():
         print("no change in worktree")
         return 2
     # 1. demo both ways
-    rc_with, o_with = run([PY, "_seed/demo.py"], cwd=wt)
+    rc_with, o_with = run([PY, f"{seed_name}/demo.py"], cwd=wt)
     # NB: never `git stash` here - the stash is shared by all worktrees of a repository
     run(["git", "-C", wt, "apply", "-R", os.path.join(seed, "patch.diff")])
     try:
-        rc_without, o_without = run([PY, "_seed/demo.py"], cwd=wt)
+        rc_without, o_without = run([PY, f"{seed_name}/demo.py"], cwd=wt)
     finally:
         run(["git", "-C", wt, "apply", os.path.join(seed, "patch.diff")])
     out["ran"]["demo_with_change"] = {"exit": rc_with, "tail": o_with.strip().splitlines()[-3:]}
